@@ -114,6 +114,23 @@ def r1_fullfact(ctx, repo):
         raise AnalysisError("fullfact not found")
     C = "doe.fullfact"
     lv = func_params(fn)[0]
+    # every array of fullfact holds level indices (0 .. levels[i]-1) or run counts, and the level counts are whatever the
+    # caller passes: an element type that cannot hold them wraps (int8 at 128, uint8 at 256, int16 at 32768; float16 is exact
+    # to 2048 only), the rows of the high levels then repeat the rows of other levels and combinations are missing
+    NARROW = {"int8": 127, "uint8": 255, "int16": 32767, "uint16": 65535, "float16": 2048, "half": 2048, "byte": 127, "ubyte": 255, "short": 32767, "ushort": 65535}
+    for c_ in ast.walk(fn):
+        if not isinstance(c_, ast.Call):
+            continue
+        cands = [k.value for k in c_.keywords if k.arg == "dtype"]
+        if isinstance(c_.func, ast.Attribute) and c_.func.attr in ("astype", "view") and c_.args:
+            cands.append(c_.args[0])
+        for d_ in cands:
+            nm = (access_path(d_) or "").split(".")[-1] if not is_const(d_) else str(const_value(d_))
+            if nm in NARROW:
+                ctx.violated("R1", C, where(doe, c_), "an array of the full-factorial construction is given the element type %s (`%s`), which holds values up to %d only: the level "
+                             "indices run to %s[i]-1 for whatever level counts the caller passes, so a factor with more levels than that wraps around, the runs of its "
+                             "high levels coincide with (or index backwards into) other levels, and the design has duplicate runs and missing combinations"
+                             % (nm, text(c_)[:70], NARROW[nm], lv), key="element-type")
     loops = [s for s in fn.body if isinstance(s, ast.For) and range_bounds(s.iter)]
     if len(loops) != 1:
         ctx.inconclusive("R1", C, where(doe, fn), "factor loop not found")
